@@ -70,12 +70,13 @@ def gen_module(prop, mod, ob, case, known_classes, path, tag, pre):
         src.extend(_doc(pre).split('\n'))
         src.extend('    ' + b for b in body)
 
-    emit('ob', ['_stats.begin(_TAG)', 'r = ' + call, '_stats.tick(_TAG, r)',
+    # an impl returns None/'' = holds, '~' = path pruned by the harness (outside the obligation), else a reason
+    emit('ob', ['_stats.begin(_TAG)', 'r = ' + call, "if r == '~':", '    return True', '_stats.tick(_TAG, r)',
                 'if r:', '    return _stats.cls(r) in _KNOWN', 'return True'])
     emit('ob__reach', ['_stats.begin(_TAG)', 'r = ' + call, 'if r:', '    return True', 'return False'])
     if known_classes:
-        emit('ob__known', ['_stats.begin(_TAG)', 'r = ' + call, 'if r:', '    return _stats.cls(r) not in _KNOWN',
-                           'return True'])
+        emit('ob__known', ['_stats.begin(_TAG)', 'r = ' + call, "if r and r != '~':",
+                           '    return _stats.cls(r) not in _KNOWN', 'return True'])
     with open(path, 'w') as f:
         f.write('\n'.join(src) + '\n')
     return lines
